@@ -284,6 +284,12 @@ def _is_count(node):
     if isinstance(node, ast.Attribute) and node.attr in ('shape', 'size',
                                                          'nnz'):
         return True
+    # a total of counts: sum(len(t[k]) for k in t)
+    if isinstance(node, ast.Call) and isinstance(node.func, ast.Name) \
+            and node.func.id == 'sum' and len(node.args) == 1 \
+            and isinstance(node.args[0], (ast.GeneratorExp, ast.ListComp)) \
+            and _is_count(node.args[0].elt):
+        return True
     return False
 
 
